@@ -13,7 +13,7 @@ WRAP = "-Wl,--wrap=mmap,--wrap=munmap,--wrap=mprotect,--wrap=madvise,--wrap=cloc
 
 # VERIF_COV=1: line/branch coverage of the allocator under the checks (tools/coverage.py); separate build directory, never used by a registered command
 COV = os.environ.get("VERIF_COV") == "1"
-COVF = ["--coverage"] if COV else []
+COVF = ["--coverage", "-fprofile-update=atomic"] if COV else []      # atomic counters: no ThreadSanitizer reports about the counters themselves
 
 COMMON_C = ["-std=gnu11", "-g", "-fno-omit-frame-pointer", "-I" + os.path.join(REPO, "include")]
 
